@@ -276,3 +276,12 @@ _u['props'] = ['C07', 'C05']
 _u['defines'] = _u['defines'] + ['VERIF_NO_ACK_ON_FAILURE=1']
 _u['must_have'] = ['post8']
 UNITS.append(_u)
+
+_u = _copy.deepcopy([u for u in UNITS if u['name'] == 'C07.parse_arg'][0])
+_u['name'] = 'C07.parse_arg.anynum'
+_u['props'] = ['C07', 'C10']
+_u['defines'] = _u['defines'] + ['VERIF_ANYNUM=1']
+_u['must_have'] = ['anynum.post']
+_u['bounds'] = {'keys': 'the 14 literal keys; the NUMBER their digits spell is an arbitrary unsigned long'}
+_u['assumptions'] = ['keys are drawn from a pool of 14 literals; _dbus_string_parse_uint may return any unsigned long for the digits']
+UNITS.append(_u)
